@@ -311,6 +311,17 @@ class TextFlow:
                 if vals:
                     return many(vals)
             return [_Leaf(e.id, esc, brace, pct)]
+        if isinstance(e, ast.Attribute) and not is_name(e.value, "self"):
+            # a field of a private record (NamedTuple / dataclass) built earlier: `self._prefix.template`, `prefix.literal`
+            fields = self._record_fields(e.value, fn, at, e.attr, depth)
+            if fields is not None:
+                out_f: list[_Leaf] = []
+                for fexpr, ffn, fat in fields:
+                    sub = self.leaves(fexpr, ffn, esc, brace, pct, depth - 1, at=fat)
+                    if sub is None:
+                        return None
+                    out_f += sub
+                return out_f
         if isinstance(e, ast.Attribute) and is_name(e.value, "self"):
             if e.attr in ("trace_id", "identifier"):
                 return [_Leaf(f"self.{e.attr}", esc, brace, pct)]
@@ -331,6 +342,59 @@ class TextFlow:
         if isinstance(e, ast.Call):
             return many([*e.args, *[k.value for k in e.keywords]])
         return [_Leaf(dotted(e) or type(e).__name__, esc, brace, pct)]
+
+
+    def _record_fields(self, base: ast.AST, fn: FunctionInfo, at, field: str, depth: int):
+        """[(expression stored in `field`, function it is evaluated in, node)] for every record construction that can
+        reach `base`; None when `base` is not (only) a record of a package class with declared fields."""
+        if depth < 0:
+            return None
+        prog = self.an.prog
+        base = unwrap(base)
+        g, d, _ = self.ctx[fn.qualname]
+        sc = self.sc[fn.qualname]
+        cands: list[tuple[ast.AST, FunctionInfo, object]] = []
+        if isinstance(base, ast.Attribute) and is_name(base.value, "self"):
+            vals = self.cls.attr_val.get(base.attr, [])
+            if not vals:
+                return None
+            gi = self.ctx[self.init.qualname][0]
+            for v in vals:
+                at_i = next((n for n in gi.nodes if n.ast is not None and n.kind == "stmt" and any(x is v for x in ast.walk(n.ast))), None)
+                cands.append((v, self.init, at_i))
+        elif isinstance(base, ast.Name) and d.owner(base.id) is not None and at is not None:
+            rds = sc.reaching_defs(at, base.id)
+            if not rds:
+                return None
+            cands = [(dn.ast.value, fn, dn) for dn in rds]
+        elif isinstance(base, ast.Call):
+            cands = [(base, fn, at)]
+        else:
+            return None
+        out = []
+        for v, vfn, vat in cands:
+            v = unwrap(v)
+            if isinstance(v, ast.Call):
+                ci = prog.classes.get(self.an.callee(vfn, v) or "")
+                if ci is None or ci.method("__init__") is not None or not ci.attr_ann:
+                    return None
+                names = list(ci.attr_ann)
+                if field not in names:
+                    return None
+                kw = next((k.value for k in v.keywords if k.arg == field), None)
+                idx = names.index(field)
+                val = kw if kw is not None else (v.args[idx] if idx < len(v.args) and not any(isinstance(a, ast.Starred) for a in v.args) else None)
+                if val is None:
+                    return None
+                out.append((val, vfn, vat))
+            elif isinstance(v, (ast.Name, ast.Attribute)):
+                sub = self._record_fields(v, vfn, vat, field, depth - 1)
+                if sub is None:
+                    return None
+                out += sub
+            else:
+                return None
+        return out
 
 
 NAME = ("the scope name",)
